@@ -61,14 +61,8 @@ def gen_ops(rng, n, var, nt, ni, keys=KEYS, heavy_iter=True):
                 sim.t[t].remove(k); j = sim.t[t].index(k2); sim.t[t].insert(j + (1 if kind == "pbh" else 0), k)
         elif r < 0.31:
             k = K(t)
-            if var == "P":
-                # never to the position the key already has (known finding: MoveToPosition onto the own
-                # position relinks the entry and makes a pending iterator skip it; see the directed stream)
-                cur = sim.t[t].index(k) if k in sim.t[t] else None
-                cand = [p for p in [0, 1, 2, sz // 2, max(0, sz - 1), sz, sz + 3] if p != cur]
-                idx = rng.choice(cand)
-            else:
-                idx = rng.choice([0, sz + 1, 10 ** 6])
+            cur = sim.t[t].index(k) if k in sim.t[t] else sz
+            idx = rng.choice([0, 1, 2, sz // 2, max(0, sz - 1), sz, sz + 3, cur, cur])
             ops.append("pap:%d:%d:%d:%d" % (t, k, idx, rng.choice(VALS))); sim.put(t, k); sim.move(t, k, idx)
         elif r < 0.35:
             k = K(t); kind = rng.choice(["get", "has", "iok", "kb", "ka"]); ops.append("%s:%d:%d" % (kind, t, k))
@@ -93,12 +87,8 @@ def gen_ops(rng, n, var, nt, ni, keys=KEYS, heavy_iter=True):
                 sim.t[t].remove(k); j = sim.t[t].index(k2); sim.t[t].insert(j + (1 if kind == "mbh" else 0), k)
         elif r < 0.58:
             k = K(t, True)
-            if var == "P":
-                cur = sim.t[t].index(k) if k in sim.t[t] else None
-                cand = [p for p in [0, 1, 2, sz // 2, max(0, sz - 2), max(0, sz - 1), sz, sz + 3] if p != cur]
-                idx = rng.choice(cand)
-            else:
-                idx = rng.choice([0, sz + 1, 10 ** 6])
+            cur = sim.t[t].index(k) if k in sim.t[t] else sz
+            idx = rng.choice([0, 1, 2, sz // 2, max(0, sz - 2), max(0, sz - 1), sz, sz + 3, cur, cur, cur])
             ops.append("mp:%d:%d:%d" % (t, k, idx)); sim.move(t, k, idx)
         elif r < 0.60:
             kind = rng.choice(["sk", "sv", "so"]); ops.append("%s:%d" % (kind, t))
@@ -124,7 +114,16 @@ def gen_ops(rng, n, var, nt, ni, keys=KEYS, heavy_iter=True):
             ops.append("clr:%d:%d" % (t, rng.randint(0, 1))); sim.t[t] = []
         elif r < 0.70 and nt > 1:
             u = rng.randrange(nt)
-            kind = rng.choice(["cpf", "cpf", "swp", "swp", "eq", "mtt", "mtt", "ctt", "rmt", "ixt", "cpc", "des"])
+            kind = rng.choice(["cpf", "cpf", "swp", "swp", "eq", "mtt", "mtt", "ctt", "rmt", "ixt", "cpc", "des", "mvc", "mva", "pre"])
+            if kind == "mva":
+                ops.append("mva:%d:%d" % (t, u)); sim.t[t], sim.t[u] = sim.t[u], sim.t[t]; continue
+            if kind == "mvc":
+                ops.append("mvc:%d:%d" % (t, u))
+                if t != u:
+                    sim.t[t] = sim.t[u]; sim.t[u] = []
+                continue
+            if kind == "pre":
+                ops.append("pre:%d:%d" % (t, rng.choice([0, 0, 1, 7, 8, 255, 256]))); sim.t[t] = []; continue
             if kind == "cpf":
                 cf = rng.randint(0, 1); ops.append("cpf:%d:%d:%d" % (t, u, cf))
                 if t != u:
@@ -205,6 +204,38 @@ def traversal_case(rng, var, coll, size, bw):
     return header(var, coll, 2, 3) + "|" + ";".join(ops)
 
 
+def parked_case(rng, var, coll):
+    """iterators parked on entries; the current entry and then the entries it would visit next (and
+    the ones behind it) are removed one after the other WITHOUT advancing in between"""
+    n = rng.choice([4, 6, 10, 10, 12])
+    ops = ["put:0:%d:%d" % (k, k if var == "V" else rng.choice(VALS)) for k in range(n)]
+    its = []
+    for i in range(rng.choice([1, 2, 3])):
+        bw = rng.randint(0, 1); at = rng.randrange(n)
+        if rng.random() < 0.5:
+            ops.append("ia:%d:0:%d:%d" % (i, at, bw))
+        else:
+            ops.append("in:%d:0:%d" % (i, bw)); ops += ["adv:%d" % i] * (at if not bw else n - 1 - at)
+        its.append((i, bw, at))
+    for (i, bw, at) in its:
+        step = -1 if bw else 1
+        run = rng.choice([1, 2, 2, 3, 4])
+        ks = [at + j * step for j in range(run)]
+        if rng.random() < 0.3:
+            ks.append(at - step)          # also the entry just behind the cursor
+        if rng.random() < 0.2:
+            rng.shuffle(ks)
+        for k in ks:
+            if 0 <= k < n:
+                ops.append(rng.choice(["rm:0:%d", "rm:0:%d", "rm:0:%d", "mtt:0:1:%d"]) % k)
+        if rng.random() < 0.3:
+            ops.append(rng.choice(["put:0:%d:1" % (n + 5), "es:0:40:0", "stf:0:0", "ish:%d" % i]))
+    for _ in range(n + 2):
+        for (i, bw, at) in its:
+            ops.append("adv:%d" % i)
+    return header(var, coll, 2, 3) + "|" + ";".join(ops)
+
+
 def grow_case(rng, var, coll, upto):
     """population crossing the 8-bit index boundary (table sizes 224 -> 448) with live iterators"""
     ops = []
@@ -235,6 +266,15 @@ def big_case(rng, var, coll):
 
 
 DIRECTED = [
+    # a parked iterator whose current entry and then its successor / predecessor are removed before the next advance
+    "P0,1,2|put:0:0:0;put:0:1:1;put:0:2:2;put:0:3:3;put:0:4:4;put:0:5:5;put:0:6:6;put:0:7:7;put:0:8:8;put:0:9:9;ia:0:0:3:0;ia:1:0:6:1;rm:0:3;rm:0:4;rm:0:6;rm:0:5;adv:0;adv:1;adv:0;adv:1;adv:0;adv:1;adv:0;adv:1;adv:0;adv:1;adv:0;adv:1",
+    # MoveToPosition / PutAtPosition onto the entry's own position must not disturb a pending iterator (fix 5556955)
+    "P0,1,1|put:0:0:0;put:0:1:1;put:0:2:2;put:0:3:3;in:0:0:0;adv:0;rm:0:1;mp:0:2:1;adv:0;adv:0;adv:0",
+    "P0,1,1|put:0:0:0;put:0:1:1;put:0:2:2;put:0:3:3;in:0:0:0;adv:0;rm:0:1;pap:0:2:1:9;adv:0;adv:0;adv:0",
+    # a moved-from table and a table preallocated with zero slots must still accept Put
+    "P0,2,1|put:0:1:1;put:0:2:2;in:0:0:0;mvc:1:0;adv:0;put:0:5:5;get:0:5;put:1:6:6;adv:0;adv:0",
+    "P0,1,1|pre:0:0;put:0:1:1;get:0:1;pre:0:3;put:0:1:1;put:0:2:2;put:0:3:3;put:0:4:4",
+    "K0,2,1|put:0:2:2;put:0:1:1;mvc:1:0;put:0:3:0;put:0:0:0;mva:0:1;put:1:9:9;clr:1:0;put:1:4:4",
     # RemoveIterationEntry patching: current entry removed, neighbours removed, both directions
     "P0,1,2|put:0:1:1;put:0:2:2;put:0:3:3;in:0:0:0;in:1:0:1;rm:0:1;rm:0:3;adv:0;adv:1;rm:0:2;adv:0;adv:1;adv:0",
     "P0,1,2|put:0:1:1;put:0:2:2;put:0:3:3;ia:0:0:2:0;ia:1:0:2:1;rm:0:2;ret:0;ret:1;adv:0;adv:1",
@@ -304,6 +344,8 @@ class CHECK(vlib.Check):
         for i in range(150 if tier == "quick" else 2000):
             var = "PKV"[i % 3]
             out.append(("traversal", traversal_case(rng, var, rng.randint(0, 1), rng.choice([0, 1, 2, 3, 5, 8, 13, 30]), rng.randint(0, 1))))
+        for i in range(300 if tier == "quick" else 4000):
+            out.append(("parked", parked_case(rng, "PKV"[i % 3], 1 if rng.random() < 0.3 else 0)))
         for i in range(4 if tier == "quick" else 24):
             out.append(("grow", grow_case(rng, "PKV"[i % 3], 1 if i % 4 == 3 else 0, rng.choice([260, 300, 470]))))
         for i in range(1 if tier == "quick" else 6):
